@@ -479,9 +479,9 @@ impl Gen {
             let cand: Vec<&(usize, usize, i128, u32)> = s.view.alw.iter().collect();
             let (o, sp, x) = if !cand.is_empty() && rng.chance(4, 5) {
                 let t = *rng.pick(&cand);
-                (t.0, t.1, if nft { t.2 } else { match rng.below(5) { 0 => t.2, 1 => t.2.saturating_add(1), 2 => v.bal[t.0], _ => 1 + rng.below(t.2.max(1).min(1 << 40) as u64) as i128 } })
+                (t.0, t.1, if nft { t.2 } else { let m = t.2.min(v.bal[t.0]); match rng.below(6) { 0 => m, 1 => t.2.saturating_add(1), 2 => v.bal[t.0], 3 => t.2, _ => 1 + rng.below(m.max(1).min(1 << 40) as u64) as i128 } })
             } else { (holder, b_, if nft { owned(rng, holder) } else { self.amount(rng, v.bal[holder]) }) };
-            if rng.chance(1, 3) && self.kind != Kind::Example { (Call::BurnFrom(sp, o, x), Some(sp)) } else { (Call::TransferFrom(sp, o, a, x), Some(sp)) }
+            if rng.chance(1, 2) && self.kind != Kind::Example { (Call::BurnFrom(sp, o, x), Some(sp)) } else { (Call::TransferFrom(sp, o, a, x), Some(sp)) }
         } else {
             // malformed leftovers
             match rng.below(4) {
